@@ -132,6 +132,7 @@ type FnCtx struct {
 	loopPkgInvs map[int][]*Clause
 	inContract  int
 	assignOrd   map[string]int
+	anchorArgs  []Term
 	specDepth   int
 	qdepth      int
 	keyTypes    map[any]types.Type
